@@ -25,12 +25,7 @@ type poolBooks interface {
 	VerifPoolBooks() (idle int, idleClosed int, total uint64)
 }
 
-func (w *Proxy) poolProto() string {
-	if w.P.Proto == "http1" {
-		return "Http1"
-	}
-	return w.P.Proto
-}
+func (w *Proxy) poolProto() string { return poolName(w.P.Proto) }
 
 func (w *Proxy) liveUp(addr string) int {
 	n := 0
@@ -123,22 +118,23 @@ func (w *Proxy) checkC10Quiescent() {
 // ---- C01: forwarding fidelity (xprotocol, byte level) ----
 func (w *Proxy) checkC01() {
 	s := w.S
-	if w.P.Proto == "http1" {
-		w.checkC01H1()
-		return
-	}
+	w.checkC01H1()
 	for _, u := range w.ups {
 		if u.ParseErr != nil {
-			s.Violate("C01", "upstream_unparsable", "bytes MOSN wrote to %s do not form %s frames: %v", u.Host, w.codec.Name(), u.ParseErr)
+			s.Violate("C01", "upstream_unparsable", "bytes MOSN wrote to %s do not form %s frames: %v", u.Host, u.Codec.Name(), u.ParseErr)
 		}
 		for _, fr := range u.Unknown {
 			s.Violate("C01", "fabricated_or_corrupt_request", "upstream %s received a request that no client sent (%d bytes)", u.Host, len(fr))
 		}
 	}
 	for _, r := range w.H.Reqs {
-		want := w.codec.MaskID(r.Frame)
+		if r.Proto == "http1" {
+			continue
+		}
+		codec := peers.CodecFor(r.Proto)
+		want := codec.MaskID(r.Frame)
 		for ai, up := range r.Upstream {
-			got := w.codec.MaskID(up.Frame)
+			got := codec.MaskID(up.Frame)
 			if !bytes.Equal(want, got) {
 				s.Violate("C01", "request_changed", "req#%d attempt %d: forwarded frame differs from the frame sent (sent %dB, forwarded %dB, first diff at %d)", r.Idx, ai, len(want), len(got), firstDiff(want, got))
 			}
@@ -147,11 +143,11 @@ func (w *Proxy) checkC01() {
 			if rep.Tok == "" {
 				continue // MOSN-generated
 			}
-			got := w.codec.MaskID(rep.Frame)
+			got := codec.MaskID(rep.Frame)
 			ok := false
 			for _, up := range r.Upstream {
 				for _, sent := range up.Sent {
-					if bytes.Equal(w.codec.MaskID(sent), got) {
+					if bytes.Equal(codec.MaskID(sent), got) {
 						ok = true
 					}
 				}
@@ -354,8 +350,15 @@ func (w *Proxy) checkC01H1() {
 		}
 	}
 	for _, r := range w.H.Reqs {
+		if r.Proto != "http1" {
+			continue
+		}
 		for ai, up := range r.Upstream {
 			got := up.H
+			if got == nil {
+				s.Violate("C01", "protocol_changed", "req#%d was sent as HTTP/1 but reached the upstream in another protocol", r.Idx)
+				continue
+			}
 			if got.Method != r.HReq.Method {
 				s.Violate("C01", "h1_method_changed", "req#%d attempt %d: method %q forwarded as %q", r.Idx, ai, r.HReq.Method, got.Method)
 			}
